@@ -59,9 +59,8 @@ def main():
             continue
         executed = set(data.lines(fname) or [])
         statements = set(an.statements)
-        missing_arcs = an.arcs_missing()
-        all_arcs = list(an.arc_possibilities()) if hasattr(an, "arc_possibilities") else []
-        branch_lines = set(an.branch_lines()) if hasattr(an, "branch_lines") else set()
+        bstats = an.branch_stats()            # line -> (possible exits, taken exits)
+        bmiss = an.missing_branch_arcs()      # line -> [targets never taken]
         for name, obj in vars(mod).items():
             items = []
             if inspect.isclass(obj) and obj.__module__ == mod.__name__:
@@ -82,14 +81,16 @@ def main():
                 if not st:
                     continue
                 miss = [x for x in st if x not in executed]
-                arcs = [(a, b) for a, b in all_arcs if lo < a <= hi and a in branch_lines]
-                amiss = [(a, b) for a, b in missing_arcs if lo < a <= hi and a in branch_lines and a in executed]
-                report[qn] = dict(lines=len(st), missed_lines=miss, branch_arcs=len(arcs),
+                blines = [x for x in bstats if lo < x <= hi]
+                n_arcs = sum(bstats[x][0] for x in blines)
+                n_taken = sum(bstats[x][1] for x in blines)
+                amiss = [(a, b) for a in blines if a in executed for b in bmiss.get(a, [])]
+                report[qn] = dict(lines=len(st), missed_lines=miss, branch_arcs=n_arcs,
                                   missed_arcs=["%d->%d" % (a, b) for a, b in amiss], entered=len(miss) < len(st))
                 tot_l += len(st)
                 tot_m += len(miss)
-                tot_b += len(arcs)
-                tot_bm += len(amiss) + sum(1 for a, b in arcs if a not in executed)
+                tot_b += n_arcs
+                tot_bm += n_arcs - n_taken
     never = sorted(q for q, r in report.items() if not r["entered"])
     partial = {q: r for q, r in report.items() if r["entered"] and (r["missed_lines"] or r["missed_arcs"])}
     summary = dict(n_per_stream=n, seed=seed, streams=ran, functions=len(report), never_entered=never,
